@@ -1245,6 +1245,7 @@ def forwarding(rep, model):
     _element(rep, model)
     deform(rep, model)
     deform_alias(rep, model)
+    interp_property(rep, model)
 
 
 class EH(Hooks):
@@ -1477,6 +1478,48 @@ def deform_alias(rep, model):
         except Undecided as e:
             rep.undecided('R6a', cons, str(e), LD, fn.lineno)
     rep.floor('R6a', 'deformation operators', n, 2)
+
+
+def interp_property(rep, model):
+    """R7i: the `interp` property of the operators that interpolate (the two
+    linearized deformations, Resampling) is the common scheme if and only if
+    all per-axis schemes agree, else the per-axis tuple -- it is what their
+    `_call` hands to the interpolation kernel.  Evaluated for every tuple
+    over {linear, nearest} of length 1..4."""
+    import itertools
+    n = 0
+    for rel, cname in (('odl/deform/linearized.py', 'LinDeformFixedTempl'),
+                       ('odl/deform/linearized.py', 'LinDeformFixedDisp'),
+                       ('odl/discr/discr_ops.py', 'Resampling')):
+        ci = model.get(cname)
+        if ci is None:
+            raise AnalysisError('anchor vanished: %s' % cname)
+        for k in (1, 2, 3, 4):
+            for tup in itertools.product(('linear', 'nearest'), repeat=k):
+                cons = '%s.interp%r' % (cname, tup)
+                n += 1
+                I = Interp(model, {}, Hooks())
+                obj = Inst(ci)
+                obj.attrs['_%s__interp_byaxis' % cname] = tup
+                try:
+                    got = I.getattr_value(obj, 'interp')
+                except Undecided as e:
+                    rep.undecided('R7i', cons, str(e), rel)
+                    continue
+                except PyRaise as e:
+                    rep.violation('R7i', '%s.interp' % cname,
+                                  '%s raises %s' % (cons, e.name), rel)
+                    continue
+                want = tup[0] if len(set(tup)) == 1 else tup
+                if (tuple(got) if isinstance(got, (list, tuple)) else got) \
+                        == want:
+                    rep.holds('R7i', cons, 'scheme %r' % (want,))
+                else:
+                    rep.violation(
+                        'R7i', '%s.interp' % cname,
+                        'per-axis schemes %r are reported (and handed to the '
+                        'interpolation kernel) as %r' % (tup, got), rel)
+    rep.floor('R7i', 'interp tuples', n, 90)
 
 
 def deform(rep, model):
